@@ -371,7 +371,12 @@ PROPS["C01"] = dict(
                  "All histories that stay within the bound agree with the model by induction over operations (not machine-checked)."),
     verus=[],
     kani=[dict(files=["contracts/C01/c01.rs", "contracts/C01/c01_multi.rs"], map_shim=True, map_shim_files=REG_FILES, harness_timeout="900s", timeout_s=2700,
-               thorough_jobs=5)],   # 155 harnesses, several of 6-20 GB each: 16 at a time exhausts the memory (CBMC killed = undecided)
+               thorough_jobs=5)],   # ~150 harnesses, several of 6-20 GB each: 16 at a time exhausts the memory (CBMC killed = undecided)
+    native=[dict(files=["contracts/C01/c01.rs"],
+                 harnesses={n: dict(anchor="StateRegistry::entry (vacant-entry paths)",
+                                    bound="BOUNDED STAND-IN, native run of the generated triple with payload 0 on its concrete shape (CBMC exhausts 40 GB on std's map-entry machinery)")
+                            for n in ["c01_entry_or_insert_a_e", "c01_entry_or_insert_a_e_b", "c01_entry_or_insert_a_a", "c01_entry_or_insert_a_a_b",
+                                      "c01_entry_occupied_ops_a_e", "c01_entry_occupied_ops_a_e_b"]})],
     min_obligations={"quick": 38, "thorough": 38},
     trusted=["std HashMap/HashSet replaced by an association list with the same interface under cfg(kani) (shim/verif_map.rs)",
              "std::cell::RefCell, better_any downcasts: exercised, not specified"],
